@@ -945,7 +945,12 @@ MEM_STATIC U64 ZSTD_rollingHash_rotate(U64 hash, BYTE toRemove, BYTE toAdd, U64 
  *                 reducing risks of side effects in case of signed operations on indexes.
  * In 64-bit mode: we want to ensure that adding the maximum job size (512 MB)
  *                 doesn't overflow U32 index capacity (4 GB) */
+#if defined(FACEBOOK_ZSTD_VERIF) && defined(ZSTD_VERIF_CURRENT_MAX)
+#  define ZSTD_CURRENT_MAX (ZSTD_VERIF_CURRENT_MAX)   /* verification hook : reach index rebasing with megabytes instead of gigabytes */
+#endif
+#ifndef ZSTD_CURRENT_MAX
 #define ZSTD_CURRENT_MAX (MEM_64bits() ? 3500U MB : 2000U MB)
+#endif
 /* Maximum chunk size before overflow correction needs to be called again */
 #define ZSTD_CHUNKSIZE_MAX                                                     \
     ( ((U32)-1)                  /* Maximum ending current index */            \
